@@ -3180,6 +3180,308 @@ def k_formal_args_eval(E, tier):
     return rec
 
 
+def k_do_use_prefix(E, tier):
+    """C37: `@forward ... as prefix-*` (Scope::do_use, Prefix branch): every function, variable and mixin of
+    the module is offered under the prefixed name, and is defined in the forwarding scope exactly when the
+    show/hide filter allows a *function/mixin* resp. a *variable* of that prefixed name (Expose::allow_fun
+    for functions and mixins, Expose::allow_var for variables)."""
+    uses = E.load_enum("sass/item.rs", "UseAs")
+    f = E.find(name_re=r"^variablescope::<impl at .*>::do_use$")
+    rec = Rec("Scope::do_use (Prefix branch) and Expose::allow_fun / allow_var", f, E)
+    ctx = E.ctx()
+    me = sym.Opaque("Scope", "self", ctx)
+    module = sym.Opaque("ScopeRef", "module", ctx)
+    as_n = sym.Opaque("UseAs", "as_n", ctx)
+    ctx.assumptions.append("(= %s %s)" % (as_n.discriminant().term, bvlit(uses.index("Prefix"), 64)))
+    expose = sym.Opaque("Expose", "expose", ctx)
+    members = []   # (kind, key, value) per iteration, in order of appearance on a path
+
+    def full(ex, st, x):
+        while isinstance(x, sym.Ref):
+            x = ex.deref(st, x)
+        return x
+
+    def m_next(kind):
+        def m(ex, st, c, a, d):
+            n = sum(1 for e in st.events if e.callee == "member" and e.args[0] == kind)
+            if n >= 1:
+                return sym.Agg(d, "None", {}, 0)
+            some, none = st.fork(), st.fork()
+            key = sym.Opaque("Name", "%s-name" % kind, ctx)
+            val = sym.Opaque("T", "%s-value" % kind, ctx)
+            e = sym.Event("member", [kind, key, val], None, len(st.pc))
+            some.events.append(e)
+            return [(some, sym.Agg(d, "Some", {"0": sym.Agg("tuple", None, {"0": sym.Ref("val", key), "1": sym.Ref("val", val)})}, 1)), (none, sym.Agg(d, "None", {}, 0))]
+        return m
+
+    def m_display_arg(ex, st, c, a, d):
+        return sym.Agg("fmt::Argument", "ARG", {"0": full(ex, st, a[0])})
+
+    def m_arguments(ex, st, c, a, d):
+        arr = full(ex, st, a[1])
+        parts = [arr.fields[k].fields["0"] for k in sorted(arr.fields) if isinstance(arr.fields[k], sym.Agg)] if isinstance(arr, sym.Agg) else []
+        tpl = a[0].s if isinstance(a[0], sym.ConstStr) else None
+        return sym.Agg("fmt::Arguments", "ARGS", {"tpl": sym.ConstStr(tpl or "?"), "n": len(parts), **{str(i): x for i, x in enumerate(parts)}})
+
+    def m_format(ex, st, c, a, d):
+        ar = a[0]
+        o = sym.Opaque("String", "formatted", ctx)
+        e = sym.Event("format", [ar], o, len(st.pc))
+        st.events.append(e)
+        return o
+
+    ident = lambda ex, st, c, a, d: a[0]
+
+    def m_allow(kind):
+        def m(ex, st, c, a, d):
+            b = ctx.fresh_scalar("bool", kind)
+            e = sym.Event(kind, a, b, len(st.pc))
+            e.rargs = [full(ex, st, x) for x in a]
+            st.events.append(e)
+            return b
+        return m
+
+    def m_define(kind, fallible=False):
+        def m(ex, st, c, a, d):
+            e = sym.Event(kind, a, None, len(st.pc))
+            e.rargs = [full(ex, st, x) for x in a]
+            if not fallible:
+                st.events.append(e)
+                return sym.Unit()
+            ok, err = st.fork(), st.fork()
+            ok.events.append(e)
+            return [(ok, sym.Agg(d, "Ok", {"0": sym.Unit()}, 0)), (err, sym.Agg(d, "Err", {"0": sym.Opaque("ScopeError", "e", ctx)}, 1))]
+        return m
+
+    models = [
+        (r"^ScopeRef::with_forwarded$", lambda ex, st, c, a, d: sym.Opaque("ScopeRef", "module+forwarded", ctx)),
+        (r"^<std::collections::btree_map::Iter<'_, Name, functions::Function> as Iterator>::next$", m_next("function")),
+        (r"^<std::collections::btree_map::Iter<'_, Name, css::value::Value> as Iterator>::next$", m_next("variable")),
+        (r"^<std::collections::btree_map::Iter<'_, Name, MixinDecl> as Iterator>::next$", m_next("mixin")),
+        (r"^core::fmt::rt::Argument::<'_>::new_display::<", m_display_arg), (r"^Arguments::<'_>::new::<", m_arguments), (r"^format$", m_format),
+        (r"^must_use::<String>$", ident), (r"^<String as std::convert::Into<Name>>::into$", ident),
+        (r"as Clone>::clone$", lambda ex, st, c, a, d: full(ex, st, a[0])),
+        (r"^Expose::allow_fun$", m_allow("allow_fun")), (r"^Expose::allow_var$", m_allow("allow_var")),
+        (r"^variablescope::Scope::define_function$", m_define("define_function")), (r"^variablescope::Scope::define_mixin$", m_define("define_mixin")),
+        (r"^variablescope::Scope::define$", m_define("define", True)),
+    ] + BASE_MODELS
+    ex = sym.Executor(ctx, models=models, unroll=4, feasibility=E.feasibility(ctx), max_paths=4000)
+    paths = [p for p in ex.run(f, [sym.Ref("val", me), module, sym.Opaque("&str", "name", ctx), sym.Ref("val", as_n), sym.Ref("val", expose)]) if p.status == "return"]
+    rec.paths = len(paths)
+    want_filter = {"function": "allow_fun", "mixin": "allow_fun", "variable": "allow_var"}
+    want_define = {"function": "define_function", "mixin": "define_mixin", "variable": "define"}
+    seen = set()
+    bad = {}
+    for i, p in enumerate(paths):
+        if not (isinstance(p.ret, sym.Agg) and p.ret.variant == "Ok"):
+            continue
+        evs = p.events
+        prefix = as_n.children.get("Prefix.0")
+        for mi, me_ in enumerate([e for e in evs if e.callee == "member"]):
+            kind, key, val = me_.args
+            after = evs[evs.index(me_) + 1:]
+            nxt = next((j for j, e in enumerate(after) if e.callee == "member"), len(after))
+            seg = after[:nxt]
+            fm = [e for e in seg if e.callee == "format"]
+            al = [e for e in seg if e.callee in ("allow_fun", "allow_var")]
+            df = [e for e in seg if e.callee in ("define_function", "define_mixin", "define")]
+            if len(fm) != 1 or len(al) != 1:
+                bad.setdefault(kind, []).append("path %d: one prefixed name and one filter test per member (shape not recognised)" % i)
+                continue
+            ar = fm[0].args[0]
+            named = isinstance(ar, sym.Agg) and ar.fields.get("n") == 2 and ar.fields.get("0") is prefix and ar.fields.get("1") is key
+            right_filter = al[0].callee == want_filter[kind] and al[0].rargs[0] is expose and al[0].rargs[1] is fm[0].result
+            allowed = E.decide(ctx, p.pc + ["(not %s)" % al[0].result.term])["verdict"] == "holds"
+            defined = len(df) == 1 and df[0].callee == want_define[kind] and df[0].rargs[0] is me and df[0].rargs[1] is fm[0].result and df[0].rargs[2] is val
+            ok = named and right_filter and ((allowed and defined) or (not allowed and not df))
+            seen.add((kind, allowed))
+            if not ok:
+                bad.setdefault(kind, []).append("path %d: named=%s filter=%s(%s) allowed=%s defined=%s" % (i, named, al[0].callee, right_filter, allowed, [d_.callee for d_ in df]))
+    for kind in ("function", "variable", "mixin"):
+        if not any(k == kind for k, _ in seen) and kind not in bad:
+            rec.add("%ss of the module are offered (shape not recognised)" % kind, {"verdict": "inconclusive", "per_solver": {}, "time_s": 0})
+            continue
+        unknown = any("shape not recognised" in b for b in bad.get(kind, []))
+        rec.add("a %s is defined under prefix+name exactly when Expose::%s allows that prefixed name" % (kind, want_filter[kind]),
+                {"verdict": "holds" if kind not in bad else ("inconclusive" if unknown else "violated"),
+                 "per_solver": {"structural": "; ".join(bad.get(kind, []))[:300] or "event identity"}, "time_s": 0})
+    # Expose::allow_fun / allow_var: Show lists allow exactly their members, Hide lists everything else; the first list is for functions/mixins
+    ex_enum = E.load_enum("sass/item.rs", "Expose")
+    for fn, idx in (("allow_fun", 0), ("allow_var", 1)):
+        g = E.find(name_re=r"item::<impl at .*>::%s$" % fn)
+        ctx2 = E.ctx()
+        exp = sym.Opaque("Expose", "expose", ctx2)
+        nm = sym.Opaque("Name", "name", ctx2)
+
+        def m_contains(ex_, st, c, a, d, ctx2=ctx2):
+            b = ctx2.fresh_scalar("bool", "contains")
+            e = sym.Event("contains", a, b, len(st.pc))
+            e.rargs = [ex_.resolve_ref(st, x) for x in a]
+            st.events.append(e)
+            return b
+
+        ex2 = sym.Executor(ctx2, models=[(r"::contains::<Name>$", m_contains)] + BASE_MODELS, feasibility=E.feasibility(ctx2))
+        ps = [p for p in ex2.run(g, [sym.Ref("val", exp), sym.Ref("val", nm)]) if p.status == "return"]
+        rec.paths += len(ps)
+        D = exp.discriminant().term
+        okall = bool(ps)
+        detail = []
+        for p in ps:
+            cs = [e for e in p.events if e.callee == "contains"]
+            r = p.ret
+            if not isinstance(r, sym.Scalar):
+                okall = False
+                detail.append("non-boolean result")
+                continue
+            if not cs:
+                # All
+                res = E.decide(ctx2, p.pc + ["(not (and %s (= %s %s)))" % (r.term, D, bvlit(ex_enum.index("All"), 64))])
+                okall = okall and res["verdict"] == "holds"
+                continue
+            lst = cs[0].rargs[0]
+            show_l, hide_l = exp.children.get("Show.%d" % idx), exp.children.get("Hide.%d" % idx)
+            if lst is show_l:
+                res = E.decide(ctx2, p.pc + ["(not (and (= %s %s) (= %s %s)))" % (D, bvlit(ex_enum.index("Show"), 64), r.term, cs[0].result.term)])
+            elif lst is hide_l:
+                res = E.decide(ctx2, p.pc + ["(not (and (= %s %s) (= %s (not %s))))" % (D, bvlit(ex_enum.index("Hide"), 64), r.term, cs[0].result.term)])
+            else:
+                res = {"verdict": "violated"}
+                detail.append("wrong list consulted")
+            okall = okall and res["verdict"] == "holds" and cs[0].rargs[1] is nm
+        rec.add("Expose::%s: All allows everything, Show exactly the names of its %s list, Hide everything but the names of its %s list"
+                % (fn, "first (function/mixin)" if idx == 0 else "second (variable)", "first" if idx == 0 else "second"),
+                {"verdict": "holds" if okall else ("violated" if ps else "inconclusive"), "per_solver": {"z3+cvc5": "per path", "detail": str(detail)[:100]}, "time_s": 0})
+    return rec
+
+
+def k_use_with(E, tier):
+    """C37: `@use ... with (...)` (the configuration loop of the module initialiser closures): every configured
+    variable is defined in the module's scope *before* the module is evaluated (so the module's `!default`
+    declarations keep it), configuring the same variable twice is an error, and — the part rsass lacks, a
+    recorded finding — a configured variable that the module does not declare with `!default` must be an error."""
+    rec = None
+    cands = [g for g in E.funcs if re.match(r"^handle_item::\{closure#\d+\}$", g.name) and "ScopeRef::new_global" in g.source() and "handle_parsed" in g.source()]
+    cands.sort(key=lambda g: g.line)
+    if len(cands) != 2:
+        raise sym.Unsupported("expected the two module initialiser closures of handle_item, found %d" % len(cands))
+    for which, f in zip(("@use", "@forward"), cands):
+        if rec is None:
+            rec = Rec("handle_item module initialiser closures: `with` configuration", f, E)
+        ctx = E.ctx()
+        module = sym.Opaque("ScopeRef", "module", ctx)
+        cfg = []
+
+        def full(ex, st, x):
+            while isinstance(x, sym.Ref):
+                x = ex.deref(st, x)
+            return x
+
+        def m_next(ex, st, c, a, d, cfg=cfg, ctx=ctx):
+            n = sum(1 for e in st.events if e.callee == "cfg-some")
+            if n >= 2:
+                st.events.append(sym.Event("cut", [], None, len(st.pc)))
+                return sym.Agg(d, "None", {}, 0)
+            while len(cfg) <= n:
+                k = len(cfg)
+                cfg.append((sym.Opaque("Name", "cfg-name%d" % k, ctx), sym.Opaque("sass::value::Value", "cfg-expr%d" % k, ctx), ctx.fresh_scalar("bool", "cfg-default%d" % k)))
+            some, none = st.fork(), st.fork()
+            some.cells["W%d" % n] = sym.Agg("triple", None, {"0": cfg[n][0], "1": cfg[n][1], "2": cfg[n][2]})
+            some.events.append(sym.Event("cfg-some", [], None, len(st.pc)))
+            none.events.append(sym.Event("cfg-none", [], None, len(st.pc)))
+            return [(some, sym.Agg(d, "Some", {"0": sym.Ref("cell", "W%d" % n)}, 1)), (none, sym.Agg(d, "None", {}, 0))]
+
+        def m_get_or_none(ex, st, c, a, d, ctx=ctx):
+            sc = full(ex, st, a[0])
+            o = sym.Opaque(d or "Option", "lookup", ctx)
+            e = sym.Event("get_or_none", a, o, len(st.pc))
+            e.rargs = [sc, full(ex, st, a[1])]
+            st.events.append(e)
+            return o
+
+        def m_value(ex, st, c, a, d, ctx=ctx):
+            # default.ok_or(()).or_else(|()| value.do_evaluate(..)): the configured value, or an evaluation error
+            ok, err = st.fork(), st.fork()
+            v = sym.Opaque("css::value::Value", "cfg-value", ctx)
+            ok.events.append(sym.Event("cfg-value", a, v, len(st.pc)))
+            return [(ok, sym.Agg(d, "Ok", {"0": v}, 0)), (err, sym.Agg(d, "Err", {"0": sym.Opaque("Error", "cfg-eval-error", ctx)}, 1))]
+
+        def m_is_none(ex, st, c, a, d, ctx=ctx):
+            o = full(ex, st, a[0])
+            return sym.mk_bool("(= %s %s)" % (ex.discriminant(o).term, bvlit(0, 64)))
+
+        def m_define(ex, st, c, a, d, ctx=ctx):
+            ok, err = st.fork(), st.fork()
+            e = sym.Event("define", a, None, len(st.pc))
+            e.rargs = [full(ex, st, x) for x in a]
+            ok.events.append(e)
+            return [(ok, sym.Agg(d, "Ok", {"0": sym.Unit()}, 0)), (err, sym.Agg(d, "Err", {"0": sym.Opaque("ScopeError", "e", ctx)}, 1))]
+
+        def m_res(name):
+            def m(ex, st, c, a, d, ctx=ctx):
+                ok, err = st.fork(), st.fork()
+                e = sym.Event(name, a, None, len(st.pc))
+                e.rargs = [full(ex, st, x) for x in a]
+                ok.events.append(e)
+                return [(ok, sym.Agg(d, "Ok", {"0": sym.Opaque("T", name + "-result", ctx)}, 0)), (err, sym.Agg(d, "Err", {"0": sym.Opaque("Error", name + "-error", ctx)}, 1))]
+            return m
+
+        models = [
+            (r"^<ScopeRef as Deref>::deref$", lambda ex, st, c, a, d: sym.Ref("val", full(ex, st, a[0]))),
+            (r"^ScopeRef::new_global$", lambda ex, st, c, a, d, module=module: module),
+            (r"^<ScopeRef as Clone>::clone$", lambda ex, st, c, a, d: full(ex, st, a[0])), (r"^<Name as Clone>::clone$", lambda ex, st, c, a, d: full(ex, st, a[0])),
+            (r"^<std::slice::Iter<'_, \(Name, sass::value::Value, bool\)> as Iterator>::next$", m_next),
+            (r"^variablescope::Scope::get_or_none$", m_get_or_none),
+            (r"^Option::<css::value::Value>::ok_or::<\(\)>$", lambda ex, st, c, a, d: a[0]),
+            (r"^std::result::Result::<css::value::Value, \(\)>::or_else::<", m_value),
+            (r"^Option::<css::value::Value>::is_none$", m_is_none),
+            (r"^variablescope::Scope::define$", m_define),
+            (r"^SourceFile::parse$", m_res("parse")), (r"^handle_parsed::<", m_res("handle_parsed")),
+        ] + BASE_MODELS
+        ex = sym.Executor(ctx, models=models, unroll=5, feasibility=E.feasibility(ctx), max_paths=4000)
+        paths = [p for p in ex.run(f, [sym.Opaque("closure", "env", ctx), sym.Opaque("&mut CssData", "dest", ctx)]) if p.status == "return"]
+        rec.paths += len(paths)
+        n_ok = n_dup = 0
+        bad_order, bad_dup, unchecked = [], [], []
+        for i, p in enumerate(paths):
+            if any(e.callee == "cut" for e in p.events):
+                continue
+            n = sum(1 for e in p.events if e.callee == "cfg-some")
+            defs = [e for e in p.events if e.callee == "define"]
+            hp = [e for e in p.events if e.callee == "handle_parsed"]
+            ret = p.ret
+            if isinstance(ret, sym.Agg) and ret.variant == "Ok" and n >= 1:
+                n_ok += 1
+                order = [e.callee for e in p.events if e.callee in ("define", "handle_parsed")]
+                good = (len(defs) == n and len(hp) == 1 and order == ["define"] * n + ["handle_parsed"]
+                        and all(defs[k].rargs[0] is module and defs[k].rargs[1] is cfg[k][0] for k in range(n)))
+                if not good:
+                    bad_order.append(i)
+                # is there any check, after the module was evaluated, that the configured names were declared `!default`?
+                after = p.events[p.events.index(hp[0]) + 1:] if hp else []
+                if not any(e.callee not in ("drop",) and any(x is cfg[k][0] for k in range(n) for x in getattr(e, "rargs", [])) for e in after):
+                    unchecked.append(i)
+            if isinstance(ret, sym.Agg) and ret.variant == "Err" and isinstance(ret.fields.get("0"), sym.Agg) and ret.fields["0"].variant == "S":
+                n_dup += 1
+                look = [e for e in p.events if e.callee == "get_or_none" and e.rargs[0] is module]
+                if not look:
+                    bad_dup.append(i)
+                else:
+                    r = E.decide(ctx, p.pc + ["(not (= %s %s))" % (ex.discriminant(look[-1].result).term, bvlit(1, 64))])
+                    if r["verdict"] != "holds" or look[-1].rargs[1] is not cfg[n - 1][0]:
+                        bad_dup.append(i)
+        if n_ok == 0:
+            rec.add("%s: a configured Ok path exists (shape not recognised)" % which, {"verdict": "inconclusive", "per_solver": {}, "time_s": 0})
+            continue
+        rec.add("%s: each configured variable is defined in the module's scope, in order, before the module body is evaluated (%d Ok paths)" % (which, n_ok),
+                {"verdict": "holds" if not bad_order else "violated", "per_solver": {"structural": "event order %s" % bad_order[:5]}, "time_s": 0})
+        rec.add("%s: `may only be configured once` exactly when the module scope already holds that name (%d paths)" % (which, n_dup),
+                {"verdict": ("holds" if not bad_dup else "violated") if n_dup else "inconclusive", "per_solver": {"z3+cvc5": "pc implies the lookup is Some", "paths": str(bad_dup[:5])}, "time_s": 0})
+        o = rec.add("%s: a configured variable that the module does not declare with !default is an error (the closure never looks at the configured names again after evaluating the module)" % which,
+                    {"verdict": "holds" if not unchecked else "violated", "per_solver": {"structural": "no event mentions a configured name after handle_parsed on paths %s" % unchecked[:5]}, "time_s": 0})
+        o["region_excluded"] = "holds"   # the finding is exactly this obligation; nothing else is folded into it
+    return rec
+
+
 def k_value_eq_symmetric(E, tier):
     """C12: css::Value::eq is symmetric as a function of the two values' kinds and of the (symmetric)
     comparisons of their parts: eq(a,b) and eq(b,a) are executed symbolically and must be the same
